@@ -16,7 +16,7 @@ import random
 ALIASES = {"→": ["->"], "⊕": ["+"], "⧺": ["~"], "⇌": ["vs", "<->"], "∨": ["|"], "∧": ["&"], "§": ["#"]}
 KEYS = ["K", "KEY_2", "a.b", "x-y", "Name", "STATUS", "RISKS", "TESTS", "Ünï", "k9", "_p", "ID", "PATTERN", "REGEX"]
 ALWAYS_QUOTE = ("PATTERN", "REGEX")
-WORDS = ["alpha", "Beta", "g_1", "x.y", "done", "ACTIVE", "pend-ing", "truex", "nullable", "vsx", "A1"]
+WORDS = ["alpha", "Beta", "g_1", "x.y", "done", "ACTIVE", "pend-ing", "truex", "nullable", "vsx", "A1", "True", "NULL", "FALSE"]
 PLAIN_QUOTED = ["two words", "a,b", "x:y", "has \"q\"", "back\\slash", "tab\there", "nl\nline", "", "1abc", "true", "null", "vs",
                 "-dash", "é accent", "a→b c", "[br]", "# hash", "// not comment", "50%", "a=b", "(p)", "semi;colon", "$", "§ref x",
                 "//server/share", "//cdn.example.com/lib.js", "/usr/bin", "./src", "docs/readme.md", "a//b", "http://x/y", "1.0rc1", "2.5e-05x",
